@@ -246,3 +246,19 @@ Section WithApi.
     - reflexivity.
   Qed.
 End WithApi.
+
+(* C03: a method is rendered in place - only functions and classes of a module can move to a re-export stub (the branch that
+   moves a declaration returns the empty text) *)
+Section MethodsStay.
+  Variable classes : list (str * cls).
+  Variable reexport_map : list (str * list rmod).
+  Variable nc : bool.
+
+  Theorem method_is_rendered_in_place f indent rx s x s' :
+    function_string classes reexport_map nc f indent true rx s = Ok (x, s') -> g_todos s = [] -> x <> [].
+  Proof.
+    intros H H0.
+    destruct (function_string_markers classes reexport_map nc f indent true rx s x s' H eq_refl H0) as (L & params & tvi & rs & _ & _ & _ & ->).
+    intro E. apply (f_equal (@List.length ascii)) in E. rewrite !app_length in E. cbn in E. lia.
+  Qed.
+End MethodsStay.
